@@ -18,3 +18,4 @@ CONSTANTS
  Dev_UidCollision = FALSE
  BottomUp = FALSE
  Dev_UidSubtreeUnchecked = FALSE
+ Dev_TopKeepsParent = FALSE
